@@ -7,8 +7,7 @@ open BoolFn
 
 /-- does pattern `p` match at the start of `inp` (whole remaining input, no buffer)? -/
 def patMatches (inp : List Char) (p : Pat) : Bool :=
-  prefixFold p.text inp &&
-  (!p.identLike || match inp.drop p.text.length with | [] => true | c :: _ => !isIdentChar c)
+  prefixFold p.text inp && (!p.identLike || boundaryOk (inp.drop p.text.length))
 
 /-- the longest pattern of the table matching at the start of `inp` (first among equals) -/
 def longestMatch (inp : List Char) : Option Pat :=
@@ -17,48 +16,12 @@ def longestMatch (inp : List Char) : Option Pat :=
       | none => some p
       | some b => if p.text.length > b.text.length then some p else some b) none
 
-inductive LexResult where
-  | ok (toks : List Tok) (rest : List Char)
-  | error
-deriving Repr
-
-/-- reference lexer for one nesting level; `top = false` means we are inside parentheses and stop
-    after the matching `)` -/
-def refLexLevel : Nat → List Char → Bool → List Tok → LexResult
-  | 0, _, _, _ => .error
-  | fuel + 1, inp, top, acc =>
-    match trimWs inp with
-    | [] => if top then .ok acc [] else .error
-    | c :: cs =>
-      let inp' := c :: cs
-      match longestMatch inp' with
-      | some p =>
-        let rest := inp'.drop p.text.length
-        match p.kind with
-        | .and => refLexLevel fuel rest top (acc ++ [.and])
-        | .or => refLexLevel fuel rest top (acc ++ [.or])
-        | .not => refLexLevel fuel rest top (acc ++ [.not])
-        | .tt => refLexLevel fuel rest top (acc ++ [.tt])
-        | .ff => refLexLevel fuel rest top (acc ++ [.ff])
-        | .parenStart =>
-          match refLexLevel fuel rest false [] with
-          | .ok inner rest' => refLexLevel fuel rest' top (acc ++ [.paren inner])
-          | .error => .error
-        | .parenEnd => if top then .error else .ok acc rest
-        | .braceStart =>
-          match untilBrace rest with
-          | some (name, rest') => if name.isEmpty then .error else refLexLevel fuel rest' top (acc ++ [.lit name])
-          | none => .error
-        | .braceEnd => .error
-        | .invalid => .error
-      | none =>
-        let r := spanIdent inp'
-        if r.1.isEmpty then .error else refLexLevel fuel r.2 top (acc ++ [.lit r.1])
-
+/-- reference lexer: the same level structure (white space, groups, braces, identifiers) with the
+    *declarative* token recogniser `longestMatch` in place of the code's buffered first match -/
 def refLex (s : List Char) : Option (List Tok) :=
-  match refLexLevel (s.length + 1) s true [] with
-  | .ok toks _ => some toks
-  | .error => none
+  match tokenizeLevelW longestMatch (s.length + 1) s true [] with
+  | .ok r => some r.1
+  | .error _ => none
 
 /-! recursive-descent reference parser over a token list; each function returns the parsed
     expression and the remaining tokens -/
